@@ -121,7 +121,7 @@ def fmtFloatText (f : Float) : String :=
   else fmtG16 f
 
 def utf8OfCp (cp : Int) : String :=
-  if cp < 0 || cp > 0x10FFFF || (0xD800 ≤ cp && cp ≤ 0xDFFF) then "" else String.singleton (Char.ofNat cp.toNat)
+  if cp ≤ 0 || cp > 0x10FFFF || (0xD800 ≤ cp && cp ≤ 0xDFFF) then "" else String.singleton (Char.ofNat cp.toNat)
 
 def textToString (cps : List Nat) : String := String.ofList (cps.map Char.ofNat)
 
